@@ -88,7 +88,10 @@ type (
 	}
 	Doctype struct{}
 	Style   struct{ CSS string }
-	Script  struct{ JS string }
+	Script  struct {
+		JS string
+		ID string // if set, the body ends with `var v = {{ a.S("ID") }};`: a Go value in the script element
+	}
 )
 
 func (Text) node()        {}
@@ -429,6 +432,9 @@ func printNode(n Node, ind int) string {
 	case Style:
 		return "<style>" + n.CSS + "</style>"
 	case Script:
+		if n.ID != "" {
+			return "<script>" + n.JS + `var v = {{ a.S("` + n.ID + `") }};` + "</script>"
+		}
 		return "<script>" + n.JS + "</script>"
 	}
 	panic(fmt.Sprintf("printNode %T", n))
@@ -721,6 +727,12 @@ func (ip *Interp) node(n Node, children func() string) string {
 	case Style:
 		return q("<style>") + q(n.CSS) + q("</style>")
 	case Script:
+		if n.ID != "" {
+			// outside a string literal the value arrives as its JSON encoding (encoding/json's HTML-safe form)
+			ip.A.Log = append(ip.A.Log, "S:"+n.ID)
+			enc, _ := json.Marshal(ip.A.Val(n.ID))
+			return q("<script>") + q(n.JS+"var v = "+string(enc)+";") + q("</script>")
+		}
 		return q("<script>") + q(n.JS) + q("</script>")
 	}
 	panic(fmt.Sprintf("interp %T", n))
